@@ -26,6 +26,8 @@ try:
             print("   " + l[:260])
 finally:
     sh(["git", "-C", "/repo", "checkout", "--", "."])
+    # the translator ran against the patched tree: regenerate from the restored one
+    sh([sys.executable, os.path.join(ROOT, "tools", "gen_constants.py")])
     # restore evidence written while the patch was applied
     sh(["git", "-C", ROOT, "checkout", "--", "evidence"])
 print(json.dumps({p: res[p]["caught"] for p in res}))
